@@ -30,15 +30,15 @@ PROPS["C15"] = {
     "jobs": [
         {"name": "http", "pkg": "goa.design/goa/v3/http", "pkgdir": "http", "pkgname": "http", "harness_dir": "http",
          "files": ["zz_verif_c15.go"], "quick": r"^VerifC15_", "thorough": r"^VerifC15T?_",
-         "shards": {r"AcceptNegotiation|DesignedContentType|RequestDecoder": 9}},
+         "shards": {r"AcceptNegotiation$|DesignedContentType$|RequestDecoder$": 9, r"More$": 8}},
     ],
-    "bounds": {"quick": {"templates": 9, "symbolic_bytes_per_template": "2 (full byte range)"}, "thorough": {"templates": 9, "symbolic_bytes_per_template": "3 (full byte range)"}},
+    "bounds": {"quick": {"templates": 9, "symbolic_bytes_per_template": "2 (full byte range)"}, "thorough": {"templates": "9 + 8 further families (lists, q-values, wildcards, parameters, suffixes, case)", "symbolic_bytes_per_template": "2-3 (full byte range)"}},
     "assumptions": ["the stdlib json/xml/gob encoders write what their decoders read (only the *kind* of encoder/decoder is compared for them; text encoders/decoders are executed)",
                     "mime.ParseMediaType (executed symbolically from its own SSA) is the reference for 'the media type of a header value'"],
     "outside": ["header values outside the 9 template families or with more symbolic bytes", "pre-set response Content-Type headers (SetContentType suffix logic) - not yet covered",
                 "multipart and websocket bodies"],
     "manifest": {
-        "text": "Bounded model checking of the real http.ResponseEncoder/ResponseDecoder/RequestDecoder/RequestEncoder/SetContentType/text encoder+decoder with the real mime.ParseMediaType and strings code interpreted on symbolic bytes: for every Accept / designed Content-Type / request Content-Type drawn from 9 template families with 2 (quick) or 3 (thorough) fully symbolic bytes, the encoder kind equals the kind of decoder the library selects from the header the call left behind, equals the documented choice (reference model written from the doc comments), unparsable or unsupported values fall back to JSON resp. are refused with unsupported_media_type -> 415, and text bodies round-trip byte for byte.",
+        "text": "Bounded model checking of the real http.ResponseEncoder/ResponseDecoder/RequestDecoder/RequestEncoder/SetContentType/text encoder+decoder with the real mime.ParseMediaType and strings code interpreted on symbolic bytes: for every Accept / designed Content-Type / request Content-Type drawn from 9 template families with 2 fully symbolic bytes (thorough: 8 further template families), the encoder kind equals the kind of decoder the library selects from the header the call left behind, equals the documented choice (reference model written from the doc comments), unparsable or unsupported values fall back to JSON resp. are refused with unsupported_media_type -> 415, and text bodies round-trip byte for byte.",
         "note": "Trusted: gosym executor, z3; encoding/json|xml|gob are compared by kind only. Branch feasibility on single bytes is pre-decided by exact 256-value domains (cross-checkable with -no-dom); every assertion is discharged by the SMT solver; counterexamples and sampled witnesses are replayed natively.",
     },
 }
